@@ -67,6 +67,7 @@ def parse_cases():
         {"value.items_contain": {"\\path": 1}}, {"value.items_contain": {"\\path": 1, "b": 2}},
         {"value.items_contain": {"a\\pathb": 1}}, {"value.in": [{"\\path": ["a"]}, {"path": ["a"]}]},
         {"value.in_range": {"lower": 1, "upper": 5, "\\path": 2}},
+        {"value.allowed_keys": ("a", "b")}, {"value.keys_contain_any_of": ()}, {"key.keys_equal_to": ("k1",)}, {"value.is_instance": (int,)},
         {"value.dtype.in": ("int", "str")}, {"value.type.not_in": ("int",)}, {"value.dtype.equal_to": ("int",)}, {"key.dtype.in": (int, "str")},
         {"value.is_instance": ("int", "str")}, {"value.dtype.in": ["int", ("str",)]},
         {"value.in": ({"path": 5},)}, {"value.in": ({"path.first": ["a"]}, 7)}, {"value.in_range": ({"path": ["a"]}, 10)},
@@ -105,6 +106,9 @@ def parse_cases():
         {"path": ["a"], "condition": {}, "doc": "a\x1f"}, {"path": ["a"], "condition": {}, "doc": ["\x1c b \x1d", "c\x00"]},
         {"path": ["a"], "condition": {}, "doc": {"description": "  d\x1e", "examples": ["e\x1f\n"]}},
         {"condition": {"value.foo": 1}}, {"path": 5, "condition": {"value.foo": 1}},
+        {"path": ["a"], "condition": {}, "doc": ("first ", " second")}, {"path": ["a"], "condition": {}, "doc": {"description": ("a",)}},
+        {"path": ["a"], "condition": {}, "doc": {"examples": ("a",)}}, {"path": ["a"], "condition": {}, "cast": {"str": ["int"]}},
+        {"path": ["a"], "condition": {}, "cast": {"str": {"a": 1}}}, {"path": ["a"], "condition": {}, "cast": {("str",): "int"}},
         {"path": ["a"], "condition": {}, "doc": "\x0ba\x0c"}, {"path": ["a"], "condition": {}, "doc": ["\t\rb\r\t", "\x0c"]},
         {"path": ["a"], "condition": {}, "doc": {"description": "\x0b", "examples": ["\x0c e \x0b", " \n\t "]}},
     ]
